@@ -135,4 +135,23 @@ Section RunC.
   Theorem run_steps_c_refines c ws k m0 m' : run_steps_c par crops c ws k m0 = GOk m' ->
     run_steps (DState R) (Day.W R) (DRow R) (DOut R) procc dead (matured par) (summary_of par) (reset par) c ws k m0 = Ok m'.
   Proof. apply run_steps_g_ok. Qed.
+  (* ---- C14 for the concrete physics: no look-ahead ---------------------------------------------------------------
+     Day.reset does not read the weather list at all (the thermal calendar of a GDD crop lives in the crop records of [par],
+     which initialisation / the season reset of the implementation compute from the weather: that dependence is the
+     subject of Properties/C14_inputs.v), so for FIXED parameter records the rows and summary rows of every step before t are
+     the same for any two weather tables that agree before t — for the concrete run by step counts. *)
+  Lemma reset_weather_free_c : reset_weather_free (DState R) (Day.W R) (reset par).
+  Proof. intros k ws ws' p. reflexivity. Qed.
+
+  Theorem run_steps_c_prefix_causal c ws ws' t n m a b :
+    wf_clock c -> agree_before (Day.W R) t ws ws' -> minv (DState R) (DRow R) (DOut R) c m ->
+    run_steps_c par crops c ws n m = GOk a -> run_steps_c par crops c ws' n m = GOk b ->
+    rows_before (DState R) (DRow R) (DOut R) t a = rows_before (DState R) (DRow R) (DOut R) t b /\
+    sums_before (DState R) (DRow R) (DOut R) t a = sums_before (DState R) (DRow R) (DOut R) t b.
+  Proof.
+    intros Hwf Ha Hm H1 H2.
+    apply run_steps_c_refines in H1. apply run_steps_c_refines in H2.
+    exact (prefix_causal (DState R) (Day.W R) (DRow R) (DOut R) procc dead (matured par) (summary_of par) (reset par)
+             c ws ws' t n Hwf Ha reset_weather_free_c m a b Hm H1 H2).
+  Qed.
 End RunC.
